@@ -85,6 +85,11 @@ def handle (s : St) (line : String) : St × String :=
   | ["setlast"] => match s.last with
     | some f => doSet s (some f)
     | none => (s, noTable)
+  | "setsub" :: how :: idxs =>   -- table.fmt = <some of its own reported column descriptions, no limits>
+    match s.tbl, idxs.mapM (·.toNat?), (if how = "v" then some false else if how = "p" then some true else none) with
+    | some (t, _), some (i :: is), some plain => doSet s (some (subFmtStr t.fmt (i :: is) plain))
+    | none, some (_ :: _), some _ => (s, noTable)
+    | _, _, _ => (s, "bad-op")
   | "newobj" :: rest =>   -- a table whose format is built from ReprColumn objects (no parser involved)
     match Wire.splitAt rest with
     | [spec, q] =>
